@@ -232,6 +232,35 @@ theorem upper_same_cell (s : List Char) (ci ri : Int) (h : cellNameToCoordinates
   obtain ⟨c, r, hs, rfl, rfl⟩ := shape_of_decode h
   exact decode_of_shape (shape_upper hs)
 
+/-- **Strictness at the API level**: the normalisation every cell-name API applies
+before decoding (ASCII upper-casing in `mergeCellsParser`) neither widens nor
+narrows what is accepted: the normalised string decodes to `(c, r)` iff the
+string itself does. -/
+theorem api_strict (s : List Char) (ci ri : Int) :
+    cellNameToCoordinates (s.map toUpper) = .ok (ci, ri) ↔ cellNameToCoordinates s = .ok (ci, ri) := by
+  constructor
+  · intro h
+    obtain ⟨c, r, hs, rfl, rfl⟩ := shape_of_decode h
+    exact decode_of_shape (shape_of_upper hs)
+  · exact upper_same_cell s ci ri
+
+/-- hence an API accepts a string iff it is an A1 reference inside the grid -/
+theorem api_accepts_iff_a1 (s : List Char) :
+    (apiRef s).isSome = true ↔ ∃ c r, parseA1 s = some (c, r) := by
+  unfold apiRef getterRef setterRef
+  constructor
+  · intro h
+    split at h
+    · rename_i c r hdec
+      obtain ⟨cn, rn, hp, _, _⟩ := rejects_non_a1 s c r ((api_strict s c r).mp hdec)
+      exact ⟨cn, rn, hp⟩
+    · simp at h
+  · rintro ⟨c, r, hp⟩
+    have hd := spec_sound s c r hp
+    have hu := upper_same_cell s _ _ hd
+    obtain ⟨_, _, _, _, canon, hcanon, _⟩ := cell_decode_encode s _ _ hd
+    simp [hu, hcanon]
+
 /-- **Full strength**: for every spelling `s` a setter accepts, the reference the
 setter stores and the reference a getter called with the same spelling looks up
 are the same canonical name — the getter finds what the setter wrote. -/
